@@ -123,6 +123,8 @@ BUNDLE = {
     "ze_ext.f90": "module ze_base\n  implicit none\n  type :: ze_p\n    integer :: pc\n  contains\n    procedure :: pb => ze_impl\n  end type ze_p\ncontains\n  subroutine ze_impl(self)\n    class(ze_p), intent(inout) :: self\n    self%pc = 1\n  end subroutine ze_impl\nend module ze_base\n",
     "ze_use.f90": "module ze_child\n  use ze_base\n  implicit none\n  type, extends(ze_p) :: ze_c\n    integer :: cc\n  end type ze_c\n  type(ze_c) :: ze_obj\n  type(ze_p) :: ze_direct\ncontains\n  subroutine ze_go()\n    ze_obj%pc = ze_obj%cc\n    ze_direct%pc = 2\n    call ze_direct%pb()\n    call ze_obj%pb()\n    associate (zz => ze_obj%pc)\n      ze_obj%cc = zz\n    end associate\n  end subroutine ze_go\nend module ze_child\n",
 }
+BUNDLE["za_first.f90"] = ("module za_first\n  use ze_child\n  implicit none\ncontains\n  subroutine za_go()\n    associate (qq => ze_obj%pc)\n"
+                          "      ze_obj%cc = qq\n    end associate\n    call ze_obj%pb()\n  end subroutine za_go\nend module za_first\n")
 BUNDLE_VARIANTS = {
     "zi_inc.f90": ["      integer :: inc_renamed\n      real :: inc_other\n", "      real :: inc_other\n", "      integer :: inc_var, inc_more\n      real :: inc_other\n"],
     "zi_main.f90": ["subroutine zi_user()\n  implicit none\n  integer :: own\n  own = 1\nend subroutine zi_user\n"],
@@ -133,6 +135,7 @@ BUNDLE_VARIANTS = {
     "ze_ext.f90": [BUNDLE["ze_ext.f90"].replace("integer :: pc", "integer :: pc\n    integer :: pd"), BUNDLE["ze_ext.f90"].replace("pb => ze_impl", "pq => ze_impl"),
                    BUNDLE["ze_ext.f90"].replace("ze_p", "ze_q"), BUNDLE["ze_ext.f90"].replace("integer :: pc", "real :: pc")],
     "ze_use.f90": [BUNDLE["ze_use.f90"].replace("extends(ze_p)", "extends(ze_missing)"), BUNDLE["ze_use.f90"].replace("zz => ze_obj%pc", "zz => ze_obj%cc")],
+    "za_first.f90": [BUNDLE["za_first.f90"].replace("qq => ze_obj%pc", "qq => ze_obj%cc"), BUNDLE["za_first.f90"].replace("use ze_child", "use ze_base")],
 }
 
 
@@ -248,6 +251,12 @@ def execute(case, scratch):
         b_fresh = battery.run(fresh, root, disk, pos)
     except Exception as e:
         shutil.rmtree(root, ignore_errors=True)
+        import traceback
+
+        if not any("/fortls/" in fr.filename.replace("\\", "/") for fr in traceback.extract_tb(e.__traceback__)):
+            from harness.runner import HarnessError
+
+            raise HarnessError(f"{type(e).__name__}: {e}\n{traceback.format_exc()}")
         return [Disc(exc_signature(e, "C10-EXC"), f"{type(e).__name__}: {e}")], info
     discs = []
     seen = set()
